@@ -11,6 +11,8 @@ for d in seeded/*/; do
   ./check $p --tier quick > /tmp/seedrun.log 2>&1; code=$?
   git -C /repo checkout -- .
   cl=$(grep "violated:" /tmp/seedrun.log | awk '{print $2}' | sort -u | tr '\n' ' ')
+  nb=$(python3 -c "import json;print(json.load(open('$d/meta.json')).get('neutralised_by',''))")
+  [ -n "$nb" ] && cl="(neutralised by fix $nb: the change no longer breaks the property; exit 0 is the right answer) $cl"
   echo "| $s | $p | $code | $cl |" >> $OUT
 done
 [ -z "$(git -C /repo status --porcelain)" ] || { echo "/repo left dirty!"; exit 2; }
